@@ -23,5 +23,6 @@ view == <<pc, run, pos, cur, file, objs, nposts>>
 EmitInv == pc = "end" => PrintT(ToJson([run |-> run, file |-> file, hist |-> hist]))
 ASSUME UnitOK
 ASSUME PrintT(ToJson([pool |-> Pool, grid |-> Grid, K |-> KPat, u |-> U, unit |-> Unit,
-                      ranking |-> RankTab, nd |-> NDTab]))
+                      ranking |-> RankTab, nd |-> NDTab,
+                      best |-> [sid \in 1..Len(PoolDef) |-> IF ChiTab[sid][1].k = "fin" THEN ChiTab[sid][1].v ELSE -1]]))
 =============================================================================
